@@ -173,8 +173,10 @@ func (s *Server) enter(ctx gorums.ServerCtx, method string, req *puppet.Req) (ch
 		}
 	}
 	if !hold {
-		ctx.Release()
+		// the event is recorded before the lock is released, so that it precedes
+		// everything the release enables
 		s.Tr.Emit("HRelease", s.ID, req.GetCall(), "conn", ctx, "how", "entry")
+		ctx.Release()
 	}
 	return ch, serial, conn
 }
@@ -186,23 +188,23 @@ func (s *Server) next(ctx gorums.ServerCtx, tok uint64, ch chan Cmd) (Cmd, bool)
 		case c := <-ch:
 			switch c.Kind {
 			case "release":
-				ctx.Release()
 				s.Tr.Emit("HRelease", s.ID, tok, "conn", ctx, "how", "cmd")
+				ctx.Release()
 				continue
 			case "release3":
-				ctx.Release()
-				ctx.Release()
-				ctx.Release()
 				s.Tr.Emit("HRelease", s.ID, tok, "conn", ctx, "how", "x3")
+				ctx.Release()
+				ctx.Release()
+				ctx.Release()
 				continue
 			case "releasego":
+				s.Tr.Emit("HRelease", s.ID, tok, "conn", ctx, "how", "go3")
 				var wg sync.WaitGroup
 				for i := 0; i < 3; i++ {
 					wg.Add(1)
 					go func() { defer wg.Done(); ctx.Release() }()
 				}
 				wg.Wait()
-				s.Tr.Emit("HRelease", s.ID, tok, "conn", ctx, "how", "go3")
 				continue
 			}
 			return c, true
@@ -216,6 +218,7 @@ func (s *Server) next(ctx gorums.ServerCtx, tok uint64, ch chan Cmd) (Cmd, bool)
 func (s *Server) unary(ctx gorums.ServerCtx, method string, req *puppet.Req) (*puppet.Rep, error) {
 	ch, serial, conn := s.enter(ctx, method, req)
 	tok := req.GetCall()
+	defer s.Tr.Emit("HReturn", s.ID, tok, "conn", ctx)
 	for {
 		c, ok := s.next(ctx, tok, ch)
 		if !ok {
@@ -238,6 +241,7 @@ func (s *Server) unary(ctx gorums.ServerCtx, method string, req *puppet.Req) (*p
 func (s *Server) stream(ctx gorums.ServerCtx, method string, req *puppet.Req, send func(*puppet.Rep) error) error {
 	ch, serial, conn := s.enter(ctx, method, req)
 	tok := req.GetCall()
+	defer s.Tr.Emit("HReturn", s.ID, tok, "conn", ctx)
 	for {
 		c, ok := s.next(ctx, tok, ch)
 		if !ok {
@@ -262,12 +266,13 @@ func (s *Server) stream(ctx gorums.ServerCtx, method string, req *puppet.Req, se
 func (s *Server) oneway(ctx gorums.ServerCtx, method string, req *puppet.Req) {
 	ch, _, _ := s.enter(ctx, method, req)
 	tok := req.GetCall()
+	defer s.Tr.Emit("HReturn", s.ID, tok, "conn", ctx)
 	for {
 		c, ok := s.next(ctx, tok, ch)
 		if !ok {
 			return
 		}
-		if c.Kind == "done" || c.Kind == "reply" || c.Kind == "end" {
+		if c.Kind == "done" || c.Kind == "reply" || c.Kind == "end" || c.Kind == "fail" {
 			s.Tr.Emit("HEnd", s.ID, tok, "conn", ctx)
 			return
 		}
